@@ -217,7 +217,23 @@ class BlobWorld:
             self.dead = True
             out = 'error'
         self.outcomes.append(out)
+        self._warm()
         return out
+
+    def _warm(self):
+        """The observer looks at everything after every step (the oracle
+        runs only at the end of a replayed history): its cache holds the
+        blobs as of its last look, so a missing invalidation shows."""
+        try:
+            self.tm2.abort()
+            oroot = self.obs.root()
+            for name in list(oroot.keys()):
+                try:
+                    self._read(oroot[name])
+                except Exception:
+                    pass
+        except Exception:
+            pass
 
     def _flush(self):
         mn = self.model['N']
